@@ -8,7 +8,7 @@ use oxidize_pdf::parser::PdfReader;
 use oxidize_pdf::structure::{OutlineItem, OutlineTree};
 use oxidize_pdf::writer::{IncrementalFormFiller, IncrementalTextNoteEditor, TextNoteMutation, WriterConfig};
 use oxidize_pdf::{Document, Page};
-use serde_json::{json, Value};
+use serde_json::json;
 use std::io::Cursor;
 
 pub fn main(a: &Args) {
